@@ -40,8 +40,13 @@ func withModule(r *rand.Rand, g *genetics.Genome, twice bool) *genetics.Genome {
 	if twice {
 		k = 2
 	}
+	descending := r.Intn(2) == 0
 	for m := 0; m < k; m++ {
-		cn := network.NewNNode(maxId+1+m, network.HiddenNeuron)
+		cid := maxId + 1 + m
+		if twice && descending {
+			cid = maxId + 4 - 3*m // the EARLIER module owns the larger control-node id (ids maxId+4, maxId+1)
+		}
+		cn := network.NewNNode(cid, network.HiddenNeuron)
 		cn.ActivationType = []neatmath.NodeActivationType{neatmath.MultiplyModuleActivation, neatmath.MaxModuleActivation, neatmath.MinModuleActivation}[r.Intn(3)]
 		if r.Intn(2) == 0 && len(c.Traits) > 0 {
 			cn.Trait = c.Traits[r.Intn(len(c.Traits))]
@@ -173,8 +178,14 @@ func runC06(r *Run) error {
 	}
 	// trait lists that are not consecutive or not ascending (the library's own test genome has 1,3,2), with nodes
 	// and genes that reference them: references are by id, so the copy must resolve them by id too
-	for _, src := range []string{c06TraitsOutOfOrder, c06TraitsWithGaps} {
+	for k, src := range []string{c06TraitsOutOfOrder, c06TraitsWithGaps, c06TraitsOutOfOrder} {
 		g := readPlain(src, 1)
+		if k == 2 {
+			// traits with more parameters than the readers produce (Params is a slice: ten values each)
+			for ti, t := range g.Traits {
+				t.Params = append(t.Params, 0.125*float64(ti+1), -0.5)
+			}
+		}
 		f := &family{members: []*genetics.Genome{g}, env: startEnv(g), opts: randOptions(r.Rng), start: g}
 		c06One(r, o, g, f)
 		for k := 0; k < 3; k++ {
@@ -221,6 +232,13 @@ func c06NonTrivial(g *genetics.Genome) bool {
 
 func c06One(r *Run, o *opsGen, g *genetics.Genome, f *family) {
 	op := opSpec{Kind: "dup", NewId: 1000 + r.Rng.Intn(1000)}
+	expressed := false
+	if r.Rng.Intn(2) == 0 {
+		// the original has been expressed before (its nodes point into its phenotype): none of that may reach the copy
+		if _, err := g.Genesis(g.Id); err == nil {
+			expressed = true
+		}
+	}
 	before := snap(g)
 	out := o.apply(op, g, nil, f.env, f.opts, true)
 	in := o.lastInput
@@ -241,6 +259,12 @@ func c06One(r *Run, o *opsGen, g *genetics.Genome, f *family) {
 	}
 	if s := sharedState(g, c); s != "" {
 		bad("duplicate-shares-state", "original and copy share mutable state: "+s)
+	}
+	for _, n := range c.Nodes {
+		if n.PhenotypeAnalogue != nil || len(n.Incoming) != 0 || len(n.Outgoing) != 0 {
+			bad("duplicate-shares-state", fmt.Sprintf("node %d of the copy refers to network objects although the copy was never expressed (the original was expressed before: %v)", n.Id, expressed))
+			break
+		}
 	}
 	if len(g.ControlGenes) > 0 {
 		return // mutators are defined for non-modular genomes
